@@ -8,27 +8,32 @@ namespace Litep2pVerif.Chan
 
 /-- Operations of one open period (any order, any arguments = any schedule). -/
 inductive Op
-  | sync (m : Msg) | async (m : Msg) | letIn (fuel : Nat) | poll | read (n : Nat) (frames : List (Nat × Nat))
+  | sync (m : Msg) | async (m : Msg) | letIn (fuel : Nat) | poll (picks : List Nat) | read (n : Nat) (frames : List (Nat × Nat))
   | rsend (m : Msg) | rclose | close | user
 
 def apply (c : Chan) : Op → Chan
   | .sync m => (syncSend c m).1
   | .async m => (asyncSend c m).1
   | .letIn f => if c.alive then (letIn c f).1 else c
-  | .poll => (taskPoll c).1
+  | .poll picks => (taskPoll c picks).1
   | .read n fr => (remoteRead c n fr).getD c
   | .rsend m => { c with inQ := c.inQ ++ [m] }
   | .rclose => { c with inClosed := true }
   | .close => { c with signalled := true }
   | .user => (pollHandle c).1
 
-/-- Ledger of one mode: what the remote has read, what the task holds, what is queued — together exactly
-the accepted notifications while the task lives, a prefix of them afterwards. -/
+/-- The parked notification (`next_notification`), by the queue it was taken from. -/
+def parkS : Option (Bool × Msg) → List Msg | some (true, m) => [m] | _ => []
+def parkA : Option (Bool × Msg) → List Msg | some (false, m) => [m] | _ => []
+
+/-- Ledger of one mode: what the remote has read, what the task handed to the substream, what it holds
+parked, what is queued — together exactly the accepted notifications while the task lives, a prefix of them
+afterwards. -/
 structure Inv (c : Chan) : Prop where
-  s : c.delS ++ c.sBuf ++ c.syncQ <+: c.accS
-  sa : c.alive = true → c.delS ++ c.sBuf ++ c.syncQ = c.accS
-  a : c.delA ++ c.aBuf ++ c.asyncQ <+: c.accA
-  aa : c.alive = true → c.delA ++ c.aBuf ++ c.asyncQ = c.accA
+  s : c.delS ++ c.sBuf ++ parkS c.parked ++ c.syncQ <+: c.accS
+  sa : c.alive = true → c.delS ++ c.sBuf ++ parkS c.parked ++ c.syncQ = c.accS
+  a : c.delA ++ c.aBuf ++ parkA c.parked ++ c.asyncQ <+: c.accA
+  aa : c.alive = true → c.delA ++ c.aBuf ++ parkA c.parked ++ c.asyncQ = c.accA
 
 theorem prefix_drop {α} (a b c : List α) (h : a ++ b <+: c) : a <+: c :=
   (List.prefix_append a b).trans h
@@ -79,22 +84,132 @@ theorem read_inv : ∀ (fr : List (Nat × Nat)) (c : Chan) (n : Nat) (c' : Chan)
 
 theorem close_inv {c : Chan} (h : Inv c) : Inv (closeTask c) := by
   refine ⟨?_, fun ha => by simp [closeTask] at ha, ?_, fun ha => by simp [closeTask] at ha⟩
-  · simpa [closeTask] using prefix_drop _ _ _ h.s
-  · simpa [closeTask] using prefix_drop _ _ _ h.a
+  · simpa [closeTask, parkS] using prefix_drop _ _ _ (prefix_drop _ _ _ h.s)
+  · simpa [closeTask, parkA] using prefix_drop _ _ _ (prefix_drop _ _ _ h.a)
 
-theorem readInbound_inv (f : Nat) : ∀ c, Inv c → Inv (readInbound c f).1 := by
-  induction f with
-  | zero => intro c h; exact h
-  | succ n ih =>
-    intro c h
-    simp only [readInbound]
-    split
-    · exact h
+theorem readOne_inv (c : Chan) (h : Inv c) : Inv (readOne c).1 ∧ (readOne c).1.alive = c.alive := by
+  unfold readOne
+  split
+  · exact ⟨h, rfl⟩
+  · split
+    · exact ⟨h, rfl⟩
     · split
-      · exact h
+      · exact ⟨⟨h.s, h.sa, h.a, h.aa⟩, rfl⟩
+      · exact ⟨⟨h.s, h.sa, h.a, h.aa⟩, rfl⟩
+
+/-- Ledger lists. -/
+def ledS (c : Chan) : List Msg := c.delS ++ c.sBuf ++ parkS c.parked ++ c.syncQ
+def ledA (c : Chan) : List Msg := c.delA ++ c.aBuf ++ parkA c.parked ++ c.asyncQ
+
+theorem inv_led {c : Chan} : Inv c ↔ (ledS c <+: c.accS ∧ (c.alive = true → ledS c = c.accS) ∧
+    ledA c <+: c.accA ∧ (c.alive = true → ledA c = c.accA)) :=
+  ⟨fun h => ⟨h.s, h.sa, h.a, h.aa⟩, fun ⟨a, b, c, d⟩ => ⟨a, b, c, d⟩⟩
+
+theorem inv_of_led {c c' : Chan} (h : Inv c) (hs : ledS c' = ledS c) (ha : ledA c' = ledA c)
+    (has : c'.accS = c.accS) (haa : c'.accA = c.accA) (hal : c'.alive = c.alive) : Inv c' := by
+  rw [inv_led] at h ⊢
+  rw [hs, ha, has, haa, hal]; exact h
+
+/-- Taking the next notification moves it out of the ledger's parked/queued part, nothing else changes. -/
+theorem nextNotif_led {c c1 : Chan} {picks picks1 : List Nat} {p : Bool × Msg}
+    (h : nextNotif c picks = some (p, c1, picks1)) :
+    ledS c = c1.delS ++ c1.sBuf ++ (if p.1 then [p.2] else []) ++ c1.syncQ ∧
+    ledA c = c1.delA ++ c1.aBuf ++ (if p.1 then [] else [p.2]) ++ c1.asyncQ ∧
+    c1.parked = none ∧ c1.accS = c.accS ∧ c1.accA = c.accA ∧ c1.alive = c.alive ∧ c1.cfg = c.cfg := by
+  unfold nextNotif at h
+  split at h
+  · rename_i q hq
+    cases h
+    obtain ⟨b, m⟩ := p
+    cases b <;> simp [ledS, ledA, parkS, parkA, hq]
+  · rename_i hq
+    split at h
+    · cases h
+    · cases h; simp [ledS, ledA, parkS, parkA, *]
+    · cases h; simp [ledS, ledA, parkS, parkA, *]
+    · split at h <;> cases h <;> simp [ledS, ledA, parkS, parkA, *]
+
+theorem pollReady_same (c : Chan) :
+    (pollReady c).1.delS = c.delS ∧ (pollReady c).1.sBuf = c.sBuf ∧ (pollReady c).1.syncQ = c.syncQ ∧
+    (pollReady c).1.delA = c.delA ∧ (pollReady c).1.aBuf = c.aBuf ∧ (pollReady c).1.asyncQ = c.asyncQ ∧
+    (pollReady c).1.parked = c.parked ∧ (pollReady c).1.accS = c.accS ∧ (pollReady c).1.accA = c.accA ∧
+    (pollReady c).1.alive = c.alive ∧ (pollReady c).1.cfg = c.cfg := by
+  unfold pollReady
+  split <;> simp [flush]
+
+theorem close_of_prefix {c : Chan} (hs : c.delS ++ c.sBuf <+: c.accS) (ha : c.delA ++ c.aBuf <+: c.accA) :
+    Inv (closeTask c) :=
+  ⟨by simpa [closeTask, parkS] using hs, fun x => by simp [closeTask] at x,
+   by simpa [closeTask, parkA] using ha, fun x => by simp [closeTask] at x⟩
+
+/-- The outbound loop keeps the ledger; it ends with the task alive unless it closed the connection. -/
+theorem outLoop_inv (f : Nat) : ∀ (c : Chan) (picks : List Nat), Inv c → c.alive = true →
+    Inv (outLoop c picks f).1 ∧ ((outLoop c picks f).2.1 = false → (outLoop c picks f).1.alive = true) := by
+  induction f with
+  | zero => intro c picks h ha; exact ⟨h, fun _ => ha⟩
+  | succ n ih =>
+    intro c picks h ha
+    simp only [outLoop]
+    split
+    · exact ⟨h, fun _ => ha⟩
+    · rename_i p c1 picks1 hn
+      obtain ⟨hs, hA, hp, has, haa, hal, hcfg⟩ := nextNotif_led hn
+      obtain ⟨q1, q2, q3, q4, q5, q6, q7, q8, q9, q10, q11⟩ := pollReady_same c1
+      obtain ⟨b, m⟩ := p
+      have h' := inv_led.mp h
+      rw [hs, hA] at h'
+      split
       · split
-        · exact ⟨h.s, h.sa, h.a, h.aa⟩
-        · exact ih _ ⟨h.s, h.sa, h.a, h.aa⟩
+        · -- `start_send` refuses: the connection closes
+          refine ⟨?_, fun x => by simp at x⟩
+          apply close_of_prefix
+          · rw [q1, q2, q8, has]; exact prefix_drop _ _ _ (prefix_drop _ _ _ h'.1)
+          · rw [q4, q5, q9, haa]; exact prefix_drop _ _ _ (prefix_drop _ _ _ h'.2.2.1)
+        · apply ih
+          · apply inv_of_led h
+            · rw [hs]; cases b <;> simp [ledS, pushOut, parkS, q1, q2, q3, q7, hp]
+            · rw [hA]; cases b <;> simp [ledA, pushOut, parkA, q4, q5, q6, q7, hp]
+            · cases b <;> simp [pushOut, q8, has]
+            · cases b <;> simp [pushOut, q9, haa]
+            · cases b <;> simp [pushOut, q10, hal]
+          · cases b <;> simp [pushOut, q10, hal, ha]
+      · refine ⟨?_, fun _ => by simp [q10, hal, ha]⟩
+        apply inv_of_led h
+        · rw [hs]; cases b <;> simp [ledS, parkS, q1, q2, q3]
+        · rw [hA]; cases b <;> simp [ledA, parkA, q4, q5, q6]
+        · simp [q8, has]
+        · simp [q9, haa]
+        · simp [q10, hal]
+
+theorem pollNext_inv (c : Chan) (picks : List Nat) (h : Inv c) (ha : c.alive = true) :
+    Inv (pollNext c picks).1 ∧ ((pollNext c picks).2.1 ≠ some true → (pollNext c picks).1.alive = true) := by
+  have ho := outLoop_inv (c.syncQ.length + c.asyncQ.length + 1) c picks h ha
+  unfold pollNext
+  split
+  · exact ⟨ho.1, fun x => by simp at x⟩
+  · rename_i hc
+    have hf : Inv (flush (outLoop c picks (c.syncQ.length + c.asyncQ.length + 1)).1) :=
+      inv_of_led ho.1 rfl rfl rfl rfl rfl
+    have hr := readOne_inv _ hf
+    refine ⟨hr.1, fun _ => ?_⟩
+    rw [hr.2]
+    exact ho.2 (by simpa using hc)
+
+theorem taskLoop_inv (f : Nat) : ∀ (c : Chan) (picks : List Nat), Inv c → c.alive = true →
+    Inv (taskLoop c picks f).1 ∧ ((taskLoop c picks f).2 = none → (taskLoop c picks f).1.alive = true) := by
+  induction f with
+  | zero => intro c picks h ha; exact ⟨h, fun _ => ha⟩
+  | succ n ih =>
+    intro c picks h ha
+    have hp := pollNext_inv c picks h ha
+    simp only [taskLoop]
+    split
+    · rename_i hn; exact ⟨hp.1, fun _ => hp.2 (by rw [hn]; simp)⟩
+    · refine ⟨?_, fun x => by simp at x⟩
+      split
+      · exact close_inv hp.1
+      · exact hp.1
+    · rename_i hn; exact ih _ _ hp.1 (hp.2 (by rw [hn]; simp))
 
 theorem apply_inv (c : Chan) (op : Op) (h : Inv c) : Inv (apply c op) := by
   cases op with
@@ -105,7 +220,7 @@ theorem apply_inv (c : Chan) (op : Op) (h : Inv c) : Inv (apply c op) := by
     · split
       · exact h
       · rename_i hal
-        have hal : c.alive = true := by simpa using hal
+        have hal : c.alive = true := by simp at hal; exact hal.1
         split
         · exact ⟨h.s, h.sa, h.a, h.aa⟩
         · have := h.sa hal
@@ -117,7 +232,7 @@ theorem apply_inv (c : Chan) (op : Op) (h : Inv c) : Inv (apply c op) := by
     · split
       · exact h
       · rename_i hal
-        have hal : c.alive = true := by simpa using hal
+        have hal : c.alive = true := by simp at hal; exact hal.1
         split
         · have := h.aa hal
           exact ⟨h.s, h.sa, by simp [← this], fun _ => by simp [← this]⟩
@@ -127,7 +242,7 @@ theorem apply_inv (c : Chan) (op : Op) (h : Inv c) : Inv (apply c op) := by
     split
     · rename_i ha; exact (letIn_inv f c h ha).1
     · exact h
-  | poll =>
+  | poll picks =>
     simp only [apply, taskPoll]
     split
     · exact h
@@ -135,18 +250,7 @@ theorem apply_inv (c : Chan) (op : Op) (h : Inv c) : Inv (apply c op) := by
       have hal : c.alive = true := by simpa using hal
       split
       · exact close_inv h
-      · split
-        · exact close_inv h
-        · have hs := h.sa hal
-          have ha := h.aa hal
-          have key : ∀ x : Chan, Inv x → Inv (if (readInbound x 4096).2 = true
-              then (closeTask (readInbound x 4096).1, some true) else ((readInbound x 4096).1, (none : Option Bool))).1 := by
-            intro x hx
-            split
-            · exact close_inv (readInbound_inv _ _ hx)
-            · exact readInbound_inv _ _ hx
-          apply key
-          refine ⟨?_, fun _ => ?_, ?_, fun _ => ?_⟩ <;> simp [flush, ← hs, ← ha]
+      · exact (taskLoop_inv 4096 c picks h hal).1
   | read n fr =>
     simp only [apply]
     rcases hr : remoteRead c n fr with _ | c'
@@ -163,14 +267,15 @@ inductive Reach (c0 : Chan) : Chan → Prop
 
 theorem reach_inv {c0 c : Chan} (h : Reach c0 c) : Inv c := by
   induction h with
-  | init => exact ⟨by simp [reopen], fun _ => by simp [reopen], by simp [reopen], fun _ => by simp [reopen]⟩
+  | init => exact ⟨by simp [reopen, parkS], fun _ => by simp [reopen, parkS], by simp [reopen, parkA], fun _ => by simp [reopen, parkA]⟩
   | step op _ ih => exact apply_inv _ op ih
 
 /-- For each sending mode and every schedule, what the remote has read is a prefix of the notifications
 accepted for sending in this open period, in order. -/
 theorem per_mode_prefix {c0 c : Chan} (h : Reach c0 c) : c.delS <+: c.accS ∧ c.delA <+: c.accA := by
   have i := reach_inv h
-  exact ⟨prefix_drop _ _ _ (prefix_drop _ _ _ i.s), prefix_drop _ _ _ (prefix_drop _ _ _ i.a)⟩
+  exact ⟨prefix_drop _ _ _ (prefix_drop _ _ _ (prefix_drop _ _ _ i.s)),
+    prefix_drop _ _ _ (prefix_drop _ _ _ (prefix_drop _ _ _ i.a))⟩
 
 /-- … hence delivered at most once (accepted sequence numbers are distinct). -/
 theorem at_most_once {c0 c : Chan} (h : Reach c0 c) (hs : c.accS.Nodup) (ha : c.accA.Nodup) :
@@ -188,6 +293,21 @@ theorem no_gap_within_open_period {c0 c : Chan} (h : Reach c0 c) (k : Nat) (m : 
     exact (List.getElem?_eq_some_iff.mp hk).1
   · intro hk; rw [← h2]; rw [List.getElem?_append_left]; exact hk
     exact (List.getElem?_eq_some_iff.mp hk).1
+
+/-- Nothing is lost while the stream is open: as long as the task lives, what the remote has read, what the task
+handed to the substream, the one notification it keeps parked under back-pressure and what is still queued are —
+in this order, per mode — exactly the accepted notifications, for every schedule and every choice of `select!`.
+Hence once queues, parked slot and substream are empty, the remote has read exactly what was accepted. -/
+theorem no_loss_while_open {c0 c : Chan} (h : Reach c0 c) (ha : c.alive = true) :
+    (c.delS ++ c.sBuf ++ parkS c.parked ++ c.syncQ = c.accS ∧ c.delA ++ c.aBuf ++ parkA c.parked ++ c.asyncQ = c.accA) ∧
+    (c.sBuf = [] → c.aBuf = [] → c.parked = none → c.syncQ = [] → c.asyncQ = [] → c.delS = c.accS ∧ c.delA = c.accA) := by
+  have i := reach_inv h
+  refine ⟨⟨i.sa ha, i.aa ha⟩, fun h1 h2 h3 h4 h5 => ?_⟩
+  have hs := i.sa ha
+  have hA := i.aa ha
+  rw [h1, h3, h4] at hs
+  rw [h2, h3, h5] at hA
+  exact ⟨by simpa [parkS] using hs, by simpa [parkA] using hA⟩
 
 /-- The synchronous send is a single non-blocking step: ok | clogged | no-connection; a refused
 notification changes no queue; the queue bound is kept; `ForceClose` is sent only on the first clog. -/
@@ -207,41 +327,118 @@ theorem sync_never_blocks (c : Chan) (m : Msg) :
         simp at hlt
         simp; omega
 
-/-- A frame larger than the configured maximum is never moved into the shared inbound channel (nor,
-therefore, yielded to the user). -/
-theorem oversize_not_delivered (f : Nat) : ∀ c : Chan,
-    (∀ m ∈ c.notifQ, max m.size 3 ≤ c.cfg.maxSize) →
-    ∀ m ∈ (readInbound c f).1.notifQ, max m.size 3 ≤ (readInbound c f).1.cfg.maxSize := by
+theorem closeTask_notifQ (c : Chan) : (closeTask c).notifQ = c.notifQ ∧ (closeTask c).cfg = c.cfg := ⟨rfl, rfl⟩
+
+theorem outLoop_notifQ (f : Nat) : ∀ (c : Chan) (picks : List Nat),
+    (outLoop c picks f).1.notifQ = c.notifQ ∧ (outLoop c picks f).1.cfg = c.cfg := by
   induction f with
-  | zero => intro c h; exact h
+  | zero => intro c picks; exact ⟨rfl, rfl⟩
   | succ n ih =>
-    intro c h
-    simp only [readInbound]
+    intro c picks
+    simp only [outLoop]
     split
-    · exact h
-    · split
-      · exact h
+    · exact ⟨rfl, rfl⟩
+    · rename_i p c1 picks1 hn
+      have h1 : c1.notifQ = c.notifQ ∧ c1.cfg = c.cfg := by
+        unfold nextNotif at hn
+        split at hn
+        · cases hn; exact ⟨rfl, rfl⟩
+        · split at hn
+          · cases hn
+          · cases hn; exact ⟨rfl, rfl⟩
+          · cases hn; exact ⟨rfl, rfl⟩
+          · split at hn <;> cases hn <;> exact ⟨rfl, rfl⟩
+      have h2 : (pollReady c1).1.notifQ = c1.notifQ ∧ (pollReady c1).1.cfg = c1.cfg := by
+        unfold pollReady; split <;> exact ⟨rfl, rfl⟩
+      split
       · split
-        · exact h
+        · exact ⟨by simp [closeTask, h2.1, h1.1], by simp [closeTask, h2.2, h1.2]⟩
+        · have := ih (pushOut (pollReady c1).1 p) picks1
+          have h3 : (pushOut (pollReady c1).1 p).notifQ = (pollReady c1).1.notifQ ∧
+              (pushOut (pollReady c1).1 p).cfg = (pollReady c1).1.cfg := by
+            unfold pushOut; split <;> exact ⟨rfl, rfl⟩
+          exact ⟨by rw [this.1, h3.1, h2.1, h1.1], by rw [this.2, h3.2, h2.2, h1.2]⟩
+      · exact ⟨by simp [h2.1, h1.1], by simp [h2.2, h1.2]⟩
+
+def sizesOk (c : Chan) : Prop := ∀ m ∈ c.notifQ, max m.size 3 ≤ c.cfg.maxSize
+
+theorem pollNext_sizes (c : Chan) (picks : List Nat) (h : sizesOk c) : sizesOk (pollNext c picks).1 := by
+  have ho := outLoop_notifQ (c.syncQ.length + c.asyncQ.length + 1) c picks
+  unfold pollNext
+  split
+  · intro m hm; simp only [ho.1, ho.2] at hm ⊢; exact h m hm
+  · have hf : sizesOk (flush (outLoop c picks (c.syncQ.length + c.asyncQ.length + 1)).1) := by
+      intro m hm; simp only [flush, ho.1, ho.2] at hm ⊢; exact h m hm
+    revert hf
+    generalize flush (outLoop c picks (c.syncQ.length + c.asyncQ.length + 1)).1 = d
+    intro hf
+    show sizesOk (readOne d).1
+    unfold readOne
+    split
+    · exact hf
+    · split
+      · exact hf
+      · split
+        · exact hf
         · rename_i m rest _ hsz
-          apply ih
           intro x hx
           simp at hx
           rcases hx with hx | rfl
-          · exact h x hx
+          · exact hf x hx
           · simp at hsz; simpa using hsz
 
-def demoCfg : Cfg := ⟨2, 1, 2, 16, 32⟩
-def demo : Chan := [Op.sync ⟨0, 1, 5⟩, .sync ⟨0, 2, 5⟩, .async ⟨1, 1, 5⟩, .poll, .read 12 [(0, 1), (1, 1)]].foldl apply (reopen { cfg := demoCfg, viewHas := true })
+theorem taskLoop_sizes (f : Nat) : ∀ (c : Chan) (picks : List Nat), sizesOk c → sizesOk (taskLoop c picks f).1 := by
+  induction f with
+  | zero => intro c picks h; exact h
+  | succ n ih =>
+    intro c picks h
+    have hp := pollNext_sizes c picks h
+    simp only [taskLoop]
+    split
+    · exact hp
+    · split
+      · exact hp
+      · exact hp
+    · exact ih _ _ hp
+
+/-- A frame larger than the configured maximum is never moved into the shared inbound channel (nor,
+therefore, yielded to the user): a poll of the task, whatever it sends, parks or reads, keeps every
+notification in that channel within the maximum. -/
+theorem oversize_not_delivered (c : Chan) (picks : List Nat)
+    (h : ∀ m ∈ c.notifQ, max m.size 3 ≤ c.cfg.maxSize) :
+    ∀ m ∈ (taskPoll c picks).1.notifQ, max m.size 3 ≤ (taskPoll c picks).1.cfg.maxSize := by
+  unfold taskPoll
+  split
+  · exact h
+  · split
+    · exact h
+    · exact taskLoop_sizes 4096 c picks h
+
+def demoCfg : Cfg := { syncCap := 2, asyncCap := 1, notifCap := 2, pipeCap := 16, maxSize := 32 }
+def demo : Chan := [Op.user, .sync ⟨0, 1, 5⟩, .sync ⟨0, 2, 5⟩, .async ⟨1, 1, 5⟩, .poll [], .read 12 [(0, 1), (1, 1)]].foldl apply (reopen { cfg := demoCfg })
 
 example : demo.delS = [⟨0, 1, 5⟩] ∧ demo.delA = [⟨1, 1, 5⟩] ∧ demo.accS.length = 2 := by decide
 example : (syncSend { cfg := demoCfg, viewHas := true, alive := true, syncQ := [⟨0, 1, 5⟩, ⟨0, 2, 5⟩] } ⟨0, 3, 5⟩).2 = (.clogged, true) := by decide
-example : (readInbound { cfg := demoCfg, inQ := [⟨2, 1, 4⟩, ⟨2, 2, 40⟩, ⟨2, 3, 4⟩] } 10).1.notifQ = [⟨2, 1, 4⟩] ∧
-    (readInbound { cfg := demoCfg, inQ := [⟨2, 1, 4⟩, ⟨2, 2, 40⟩, ⟨2, 3, 4⟩] } 10).2 = true := by decide
+example : (taskPoll { cfg := demoCfg, alive := true, inQ := [⟨2, 1, 4⟩, ⟨2, 2, 40⟩, ⟨2, 3, 4⟩] } []).1.notifQ = [⟨2, 1, 4⟩] ∧
+    (taskPoll { cfg := demoCfg, alive := true, inQ := [⟨2, 1, 4⟩, ⟨2, 2, 40⟩, ⟨2, 3, 4⟩] } []).2 = some true := by decide
+
+/-- Back-pressure (boundary 10 bytes, pipe of 4): the task sends a1 and s1, parks s2; the remote reads 4 bytes. -/
+def bpCfg : Cfg := { syncCap := 2, asyncCap := 1, notifCap := 2, pipeCap := 4, maxSize := 32, boundary := 10 }
+def bpParked : Chan := [Op.user, .sync ⟨0, 1, 5⟩, .sync ⟨0, 2, 5⟩, .async ⟨1, 1, 5⟩, .poll [1, 0], .read 4 []].foldl apply
+  (reopen { cfg := bpCfg })
+def bpDrained : Chan := [Op.poll [], .read 4 [(1, 1)], .poll [], .read 4 [(0, 1)], .poll [], .read 4 [], .poll [],
+  .read 2 [(0, 2)]].foldl apply bpParked
+
+example : bpParked.alive = true ∧ bpParked.parked = some (true, ⟨0, 2, 5⟩) ∧ bpParked.sBuf = [⟨0, 1, 5⟩] ∧
+    bpParked.aBuf = [⟨1, 1, 5⟩] ∧ bpParked.sinkBytes = 8 ∧ bpParked.accS.length = 2 ∧ bpParked.delS = [] := by decide
+example : bpDrained.alive = true ∧ bpDrained.sBuf = [] ∧ bpDrained.aBuf = [] ∧ bpDrained.parked = none ∧
+    bpDrained.syncQ = [] ∧ bpDrained.asyncQ = [] ∧ bpDrained.delS = [⟨0, 1, 5⟩, ⟨0, 2, 5⟩] ∧ bpDrained.delA = [⟨1, 1, 5⟩] := by
+  decide
 
 #print axioms per_mode_prefix
 #print axioms at_most_once
 #print axioms no_gap_within_open_period
+#print axioms no_loss_while_open
 #print axioms sync_never_blocks
 #print axioms oversize_not_delivered
 
